@@ -50,3 +50,17 @@ Example c02_window :
   let s := run (init 2 false w1) (map (fun i => Run i CAuto) [0;0;0;0; 1;1;1;1;1;1; 0;0;0; 1;1;1; 1;1;1;1;1;1;1]) in
   quiescent s = true /\ tlog s = [[1]; [2]] /\ unflushed s = 0.
 Proof. vm_compute. repeat split; reflexivity. Qed.
+
+(* "eventually": on an open channel to which nothing else is done (no Close, no cancellation, the transport
+   accepts writes: `Calm`) every step of a writer or sender strictly decreases the lexicographic measure
+   (enqueues still to come, weighted work) - so there is no infinite execution, the channel comes to rest
+   whatever the schedule, and at rest (quiescent) everything accepted has been written and flushed (above). *)
+From GN Require Import Proof.ChanTerm_proofs.
+Theorem c02_every_step_descends : forall s i ch s', Calm s -> step s i ch = Some s' -> Calm s' /\ lexlt s' s.
+Proof. exact calm_step. Qed.
+Theorem c02_no_infinite_execution : forall s, Acc cstep s.
+Proof. exact calm_terminates. Qed.
+Theorem c02_calm_runs : forall qc until ths sched, forallb writer_thread ths = true -> forallb run_only sched = true ->
+  Calm (run (init qc until ths) sched).
+Proof. exact calm_runs_init. Qed.
+Print Assumptions c02_no_infinite_execution.
